@@ -282,3 +282,14 @@ def run_replay(d, timeout=300):
     if p.returncode == 0:
         return False, out
     return None, out
+
+
+def unit_violation(prop, signature, text, python):
+    """violation found at unit level: the counterexample is a python snippet on the real functions; it is
+    replayed (must fail) before being reported.  Returns the violation dict or None."""
+    case = {'kind': 'unit', 'property': prop, 'text': text, 'python': python}
+    d = replay_dir(prop, case)
+    ok, out = run_replay(d)
+    if not ok:
+        return None
+    return {'signature': signature, 'replay': d, 'text': '%s; %s' % (text, out.strip()[-200:])}
